@@ -40,7 +40,7 @@ class C20(Prop):
 
     def cases(self, rng, tier):
         out = []
-        n = 6000 if tier == "thorough" else 600
+        n = 20000 if tier == "thorough" else 600
         scripts = [
             "return v;", "v = v; return u(v);", "return k();", "r = h0(); return r;", "return h3(1, \"two\", [3]);", "w(); return 1;",
             "x = h5(a, b, 1, 2, 3); return x;", "return [u(1), u(\"s\"), k()];", "n = n + 1; return n;", "return len(\"abc\") + k();",
